@@ -59,7 +59,33 @@ def check(ctx):
     if r2.status == "ok":
         raise vlib.Infra("binding self-test failed: a retyped element in the dump was accepted")
     ctx.binding_selftests.append({"corrupt": "loaded[%d].type unsigned32->unsigned64" % mut[i]["key"], "refuted": r2.violated})
+    collector_table(ctx, rows)
     decoding_agrees(ctx)
+
+
+def collector_table(ctx, rows):
+    """the built-in model inside the collector binary (package main links every decoder package; any of them may touch
+    ipfix.InfoModel at program initialisation) is the ipfix package's table - hence the shipped file's"""
+    drv = ctx.go_build_test("vflow", ["vflow/infomodel_verif_test.go"])
+    out = os.path.join(ctx.subdir("imc"), "collector.ndjson")
+    rc, log, to = ctx.go_run(drv, "TestVerifCollectorInfoModel", env={"VERIF_OUT": out}, timeout=120)
+    if rc != 0 or to or not os.path.exists(out):
+        raise vlib.Infra("collector info-model dump failed: " + log[-1000:])
+    got = {(r["pen"], r["key"]): (r["id"], r["name"], r["type"]) for r in vlib.read_ndjson(out)}
+    want = {(r["pen"], r["key"]): (r["id"], r["name"], r["type"]) for r in rows if r["src"] == "builtin"}
+    for k in got:
+        ctx.count(["collector", k[0], k[1]])
+    extra = sorted(set(got) - set(want))
+    missing = sorted(set(want) - set(got))
+    differ = sorted(k for k in set(got) & set(want) if got[k] != want[k])
+    if extra or missing or differ:
+        ctx.violation("the built-in information model inside the collector (package main, all decoders linked) is not the ipfix package's "
+                      "table, so it cannot agree with scripts/ipfix.elements: %d elements only in the collector %s, %d missing %s, %d differing %s"
+                      % (len(extra), extra[:6], len(missing), missing[:6], len(differ), differ[:6]),
+                      {"only_in_collector": [[k, got[k]] for k in extra[:20]], "missing": missing[:20], "differing": [[k, got[k], want[k]] for k in differ[:20]]},
+                      key="collector-table")
+    ctx.extra["collector_table_elements"] = len(got)
+    ctx.traces_validated += 1
 
 
 def decoding_agrees(ctx):
